@@ -108,35 +108,35 @@ DHP_MECH = ['dhp.scan_count', 'dhp.help_scan_count', 'dhp.hp_extend_count', 'dhp
 PROPS = {
     'C01': {'jobs': jobs_smr_hp, 'mechanisms_required': HP_MECH},
     'C02': {'jobs': jobs_smr_hp, 'mechanisms_required': DHP_MECH},
-    'C03': {'jobs': jobs_smr_hp, 'mechanisms_required': HP_MECH + DHP_MECH},
+    'C03': {'thorough_scale': 0.7, 'jobs': jobs_smr_hp, 'mechanisms_required': HP_MECH + DHP_MECH},
     'C04': {'jobs': jobs_smr_rcu},
     'C05': {'jobs': jobs_smr_rcu},
-    'C06': {
+    'C06': {'thorough_scale': 0.8, 
         'jobs': jobs_C06,
         'mechanisms_required': ['ms.onBadTail', 'ms.onEnqueueRace', 'ms.onDequeueRace', 'basket.onTryAddBasket', 'basket.onAddBasket',
                                 'optimistic.onFixList', 'fc.onCombining', 'fc.onCollide', 'fc.onPassiveToCombiner'],
     },
-    'C13': {'jobs': set_jobs(['set_list'], 5, 15),
+    'C13': {'thorough_scale': 0.8, 'jobs': set_jobs(['set_list'], 5, 15),
             'mechanisms_required': ['michael_list.onHelpingSuccess', 'michael_list.onInsertRetry', 'lazy_list.onValidationFailed', 'iterable_list.onReuseNode', 'iterable_list.onNodeMarkFailed']},
-    'C14': {'jobs': set_jobs(['set_hash'], 5, 19),
+    'C14': {'thorough_scale': 0.7, 'jobs': set_jobs(['set_hash'], 5, 19),
             'mechanisms_required': ['split_list.onNewBucket', 'split_list.onRecursiveInitBucket', 'split_list.onBucketInitContenton', 'feldman.onExpandNodeSuccess', 'feldman.onSlotConverting']},
-    'C15': {'jobs': set_jobs(['set_tree'], 5, 16, special=SET_SPECIAL),
+    'C15': {'thorough_scale': 0.6, 'jobs': set_jobs(['set_tree'], 5, 16, special=SET_SPECIAL),
             'mechanisms_required': ['skip_list.onEraseWhileFind', 'skip_list.onExtractMinSuccess', 'skip_list.onExtractMaxSuccess', 'ellen.onInsertRetry', 'ellen.onEraseRetry', 'ellen.onSearchRetry',
                                     'bronson.onRotateRight', 'bronson.onRotateLeft']},
-    'C16': {'jobs': set_jobs(['set_lock'], 4, 17),
+    'C16': {'thorough_scale': 0.9, 'jobs': set_jobs(['set_lock'], 4, 17),
             'mechanisms_required': ['cuckoo.onResizeCall', 'cuckoo.onRelocateRound', 'cuckoo.onInsertResize']},
     'C18': {'jobs': set_jobs(['set_list', 'set_hash', 'set_tree', 'set_lock'], 3, 8, quick_scale=0.4, special=SET_SPECIAL, builds_quick=('dbg',), run_special=False)},
-    'C17': {'jobs': lambda tier, seed: (shards('rehash', 'dbg', 10, 1, 1500, scale=0.5) + shards('rehash', 'asan', 10, 1, 1500, scale=0.2)) if tier == 'quick'
+    'C17': {'thorough_scale': 0.35, 'jobs': lambda tier, seed: (shards('rehash', 'dbg', 10, 1, 1500, scale=0.5) + shards('rehash', 'asan', 10, 1, 1500, scale=0.2)) if tier == 'quick'
                     else (shards('rehash', 'dbg', 10, 1, 7200, scale=1.0) + shards('rehash', 'rel', 10, 1, 7200, scale=1.0) + shards('rehash', 'asan', 10, 1, 7200, scale=0.3))},
-    'C19': {'jobs': set_jobs(['iter'], 6, 11, asan_scale=0.4),
+    'C19': {'thorough_scale': 0.35, 'jobs': set_jobs(['iter'], 6, 11, asan_scale=0.4),
             'mechanisms_required': ['feldman.onExpandNodeSuccess']},
-    'C20': {'jobs': lambda tier, seed: jobs_C20(tier, seed),
+    'C20': {'thorough_scale': 0.4, 'jobs': lambda tier, seed: jobs_C20(tier, seed),
             'rule': 'one evaluation = one single-threaded sequence of API calls (1-200 calls, random over the full alphabet of the adapter; 3 keys and 2000 keys for sets/maps; near-empty and near-full states for bounded containers) on one container variant, '
                     'followed by lookups of every key / a complete drain; every return value (incl. update\'s pair, observed item ids, functor call counts and is-new flags, pop order, extract_min/max order, capacity behaviour) must be exactly what the sequential '
                     'reference model allows, traversal/size()/empty()/check_consistency() compared after every sequence; non-trivial = >=3 calls incl. a mutation and its observation; distinct = fingerprint of the call/result sequence'},
     'C21': {'jobs': sync_jobs('freelist', ['dbg', 'asan', 'tsan'], ['dbg', 'rel', 'asan', 'tsan'])},
     'C22': {'jobs': sync_jobs('locks', ['dbg', 'asan', 'tsan'], ['dbg', 'rel', 'asan', 'tsan'], nq=3, nt=7)},
-    'C23': {'jobs': set_jobs(['fc_kernel'], 3, 5, special={'fc_kernel': [('+wakeup_any', 2)]}, asan_scale=0.5),
+    'C23': {'thorough_scale': 0.7, 'jobs': set_jobs(['fc_kernel'], 3, 5, special={'fc_kernel': [('+wakeup_any', 2)]}, asan_scale=0.5),
             'mechanisms_required': ['fc.onCombining', 'fc.onCompactPublicationList', 'fc.onDeactivatePubRecord', 'fc.onDeletePubRecord', 'fc.onPassiveToCombiner']},
     'C24': {'jobs': sync_jobs('pools', ['dbg', 'asan'], ['dbg', 'rel', 'asan'], nq=2, nt=4)},
     'C25': {'jobs': jobs_pure, 'exhaustive': True},
@@ -145,10 +145,10 @@ PROPS = {
     'C28': {'jobs': jobs_pure, 'exhaustive': True},
     'C12': {'jobs': seq_jobs('ringbuf', 4, 8, asan_scale=1.0, tsan_scale=1.0, threads=3),
             'mechanisms_required': ['ring.wraps', 'ring.failed_push_full', 'ring.failed_pop_empty', 'byte.tail_markers']},
-    'C07': {'jobs': seq_jobs('bounded', 5, 9), 'mechanisms_required': ['vyukov.enqueue_full', 'vyukov.dequeue_empty']},
+    'C07': {'thorough_scale': 0.4, 'jobs': seq_jobs('bounded', 5, 9), 'mechanisms_required': ['vyukov.enqueue_full', 'vyukov.dequeue_empty']},
     'C08': {'jobs': seq_jobs('bounded', 5, 5), 'mechanisms_required': ['segq.onSegmentCreated', 'segq.onSegmentDeleted', 'segq.onPushContended', 'segq.onPopContended']},
-    'C09': {'jobs': seq_jobs('stack', 7, 13, threads=7, quick_scale=0.5),
+    'C09': {'thorough_scale': 0.3, 'jobs': seq_jobs('stack', 7, 13, threads=7, quick_scale=0.5),
             'mechanisms_required': ['treiber.onPushRace', 'treiber.onPopRace', 'treiber.onActiveCollision', 'treiber.onPassiveCollision', 'fc.onCollide', 'fc.onCombining']},
-    'C10': {'jobs': seq_jobs('deque_pq', 5, 9, quick_scale=0.5), 'mechanisms_required': ['fcdeque.onCollide', 'fcdeque.onCombining', 'fcdeque.onPassiveToCombiner']},
+    'C10': {'thorough_scale': 0.45, 'jobs': seq_jobs('deque_pq', 5, 9, quick_scale=0.5), 'mechanisms_required': ['fcdeque.onCollide', 'fcdeque.onCombining', 'fcdeque.onPassiveToCombiner']},
     'C11': {'jobs': seq_jobs('deque_pq', 5, 9), 'mechanisms_required': ['fcpq.onCombining', 'mspq.onPushFailed', 'mspq.onPushHeapifySwap', 'mspq.onPopHeapifySwap', 'mspq.onItemMovedTop']},
 }
